@@ -289,6 +289,66 @@ theorem parents_sound (chk : Cert → Cert → Bool) (p : Pool) (h : Inv p) (chi
 theorem parents_nil (chk : Cert → Cert → Bool) (child : Cert) :
     findVerifiedParents chk none child = .ok { parents := [], errCert := none, errNil := true } := rfl
 
+/-! ### pool variables hold values: an operation changes only its destination variable
+
+    In particular the result of `Sum` shares nothing with its receiver or argument: whatever is done
+    afterwards to any of the three pools leaves the observation of the other two unchanged.  The Go
+    harness checks exactly this on the implementation by observing EVERY live pool after EVERY operation. -/
+
+/-- the variable an operation writes -/
+def Op.dst : Op → Nat
+  | .add r _ => r
+  | .pem r _ => r
+  | .sum d _ _ => d
+
+theorem step_frame (regs regs' : Regs) (op : Op) (o : Option Bool) (h : step regs op = .ok (regs', o))
+    (x : Nat) (hx : x ≠ op.dst) : regs' x = regs x := by
+  cases op with
+  | add r c =>
+    simp only [step] at h
+    cases hr : regs r with
+    | none => simp [hr] at h
+    | some p =>
+      simp only [hr, Res.ok.injEq, Prod.mk.injEq] at h
+      rw [← h.1]; simp only [setKey, Op.dst] at hx ⊢; simp [hx]
+  | pem r bs =>
+    simp only [step] at h
+    cases hr : regs r with
+    | none =>
+      simp only [hr] at h
+      split at h
+      · simp at h
+      · simp only [Res.ok.injEq, Prod.mk.injEq] at h; rw [← h.1]
+    | some p =>
+      simp only [hr, Res.ok.injEq, Prod.mk.injEq] at h
+      rw [← h.1]; simp only [setKey, Op.dst] at hx ⊢; simp [hx]
+  | sum d a b =>
+    simp only [step, Res.ok.injEq, Prod.mk.injEq] at h
+    rw [← h.1]; simp only [setKey, Op.dst] at hx ⊢; simp [hx]
+
+/-- a variable that no operation of the sequence writes keeps its pool, whatever happens to the others
+    (e.g. the receiver and the argument of a `Sum` while the result is mutated, and vice versa). -/
+theorem run_frame (ops : List Op) (regs regs' : Regs) (outs : List Bool) (h : run regs ops = .ok (regs', outs))
+    (x : Nat) (hx : ∀ op ∈ ops, x ≠ op.dst) : regs' x = regs x := by
+  induction ops generalizing regs regs' outs with
+  | nil => simp only [run, Res.ok.injEq, Prod.mk.injEq] at h; rw [← h.1]
+  | cons op ops ih =>
+    simp only [run] at h
+    cases hs : step regs op with
+    | err => simp [hs] at h
+    | panic => simp [hs] at h
+    | ok v =>
+      obtain ⟨r1, o⟩ := v
+      simp only [hs] at h
+      cases hr : run r1 ops with
+      | err => simp [hr] at h
+      | panic => simp [hr] at h
+      | ok w =>
+        obtain ⟨r2, os⟩ := w
+        simp only [hr, Res.ok.injEq, Prod.mk.injEq] at h
+        rw [← h.1, ih r1 r2 os hr (fun op' hm => hx op' (List.mem_cons_of_mem _ hm))]
+        exact step_frame regs r1 op o hs x (hx op (List.mem_cons_self ..))
+
 /-! ### non-vacuity -/
 
 example : Agrees (init 0) (histInit 0) := agree_init 0
@@ -300,5 +360,10 @@ example :
     let b : Cert := { uid := 1, fp := 2, subject := 1, issuer := 1, skid := 0, akid := 1 }
     (histRun histInit [.add 0 a, .add 0 b, .add 1 a', .sum 2 1 0]).map (fun A => (A 2).map (fun l => (dedupFp l).map (·.uid)))
       = .ok (some [6, 1]) := by decide
+
+-- Sum into variable 2, then mutate the RESULT: receiver 0 and argument 1 keep their pools
+example (regs' : Regs) (outs : List Bool) (c : Cert)
+    (h : run init [.sum 2 0 1, .add 2 c] = .ok (regs', outs)) : regs' 0 = init 0 ∧ regs' 1 = init 1 :=
+  ⟨run_frame _ _ _ _ h 0 (by simp [Op.dst]), run_frame _ _ _ _ h 1 (by simp [Op.dst])⟩
 
 end ZV.C08
